@@ -19,6 +19,7 @@ import (
 
 	sdkmath "cosmossdk.io/math"
 	sdk "github.com/cosmos/cosmos-sdk/types"
+	gogotypes "github.com/cosmos/gogoproto/types"
 
 	servicetypes "mods.irisnet.org/modules/service/types"
 
@@ -40,6 +41,9 @@ var (
 	swModelF2    = os.Getenv("VERIF_C07_MODEL_F2") != ""
 	swAvoidF2    = os.Getenv("VERIF_C07_AVOID_F2") != ""
 	swMultiDenom = os.Getenv("VERIF_C07_AVOID_MULTIDENOM") == ""
+	// VERIF_C08_RATE_OUTAGE=1: the generator also takes the exchange-rate source of a denom away for a while
+	// (off by default: rate outages are outside the quantifier of C07/C08).
+	swRateOutage = os.Getenv("VERIF_C08_RATE_OUTAGE") != ""
 	swDebug      = os.Getenv("VERIF_C07_DEBUG") != ""
 	swOpStats    = os.Getenv("VERIF_C07_OPSTATS") != "" // report per-op accept/reject classes as well
 	// VERIF_C08_AVOID_OVER_TOTAL=1: the generator never resumes a paused context whose batch counter has reached
@@ -1012,7 +1016,12 @@ func (m *machine) doParams(op Op) error {
 }
 
 func (m *machine) doRate(op Op) error {
-	if op.Denom == "" || op.Rate == "" {
+	if op.Denom == "" {
+		return nil
+	}
+	if op.Rate == "" { // outage of the rate source (only generated under VERIF_C08_RATE_OUTAGE)
+		delete(m.rates, op.Denom)
+		SetRates(m.rates)
 		return nil
 	}
 	m.rates[op.Denom] = op.Rate
@@ -1070,6 +1079,41 @@ func (m *machine) eligibleProviders(c *mCtx, now time.Time) []eligible {
 		}
 		if ex.Cmp(c.cap) <= 0 {
 			out = append(out, eligible{prov: p, denom: b.pricing.Denom, fee: fee, base: price, disc: d.Cmp(ratOne) != 0})
+		}
+	}
+	return out
+}
+
+// rateMissing tells whether pricing a new batch of c needs an exchange rate that the rate source cannot give
+// (the module then issues nothing and reports a no_exchange_rate event).
+func (m *machine) rateMissing(c *mCtx) bool {
+	for _, p := range c.provs {
+		b := m.binds[bindKey(c.svc, p)]
+		if b == nil || !b.avail || b.qos > uint64(c.timeout) || b.pricing.Denom == baseDenom {
+			continue
+		}
+		if _, ok := m.rates[b.pricing.Denom]; !ok {
+			return true
+		}
+	}
+	return false
+}
+
+// staleQueueEntries lists contexts whose new-batch / expired-batch queue marker points below minHeight: such an
+// entry can never be processed any more.
+func (m *machine) staleQueueEntries(minHeight int64) []string {
+	var out []string
+	for _, q := range []struct {
+		name   string
+		prefix []byte
+	}{{"new-batch", servicetypes.NewRequestBatchHeightKey}, {"expired-batch", servicetypes.ExpiredRequestBatchHeightKey}} {
+		keys, vals := m.s.C.RawStore(servicetypes.StoreKey, q.prefix)
+		for i, k := range keys {
+			var h gogotypes.Int64Value
+			m.E.App.AppCodec().MustUnmarshal(vals[i], &h)
+			if h.Value < minHeight {
+				out = append(out, fmt.Sprintf("%s queue entry of context %X at height %d", q.name, k[1:], h.Value))
+			}
 		}
 	}
 	return out
@@ -1274,6 +1318,9 @@ func (m *machine) doBlock(dt int64) error {
 			if c.pausedAt >= 0 && c.nBatches > c.pausedAt {
 				c.pauseResumed = true
 			}
+		} else if due && m.rateMissing(c) {
+			m.cl["rate-outage-miss"]++ // cannot be priced: tolerated, but the context must not be lost (stale-queue clause below)
+			c.clean = false
 		} else if due && m.c08() && cc.State != servicetypes.PAUSED {
 			return m.failf("batch-missed", "context %s (state %v, frequency %d, last batch at %d, counter %d of %d) issued nothing at height %d",
 				c.id, cc.State, c.freq, c.lastIssue, c.counter, c.total, H)
@@ -1286,7 +1333,11 @@ func (m *machine) doBlock(dt int64) error {
 			m.cl["funds-pause"]++
 			pausedFor[c.consumer] = true
 			if c.module {
-				wantCbs = append(wantCbs, CbRecord{Kind: "state", CtxID: c.id, Cause: "insufficient balances"})
+				cause := "insufficient balances"
+				if m.rateMissing(c) {
+					cause = "no exchange rate" // behaviour of the proposed fix for C08/context-stalled
+				}
+				wantCbs = append(wantCbs, CbRecord{Kind: "state", CtxID: c.id, Cause: cause})
 			}
 			c.state, c.clean = cc.State, false
 		}
@@ -1300,6 +1351,11 @@ func (m *machine) doBlock(dt int64) error {
 
 	if err := m.wantCallbacks("block", cbs, wantCbs); err != nil {
 		return err
+	}
+	if m.c08() {
+		if stale := m.staleQueueEntries(H + 1); len(stale) > 0 {
+			return m.failf("context-stalled", "after the end-block of height %d: %s — it will never be processed, the context issues no further batch and cannot be restarted", H, strings.Join(stale, "; "))
+		}
 	}
 
 	// ---- coins
